@@ -47,27 +47,18 @@
 //     returned (Go's select serves a ready flow channel with probability >= 1/2 per iteration, and one
 //     service drains the whole backlog), not a clock.
 //
-// FINDING ON THE UNCHANGED TREE (this is why checks/c32/registry.json is deliberately not written)
+// FINDING (fixed in /repo as df56604; the revert is kept in /verif/seeded/C32-revert-df56604/patch.diff)
 //
-//	goldmane/pkg/storage/bucket_ring.go, EmitFlowCollections (the backward walk, "for { c :=
-//	r.maybeBuildFlowCollection(startIndex, endIndex) ... if r.indexBetween(startIndex, endIndex,
-//	r.headIndex) { break } }"): indexBetween is strict on both sides, so when the walk lands exactly
-//	on the head index, i.e. when (len(buckets) - 1 - pushAfter) is a multiple of bucketsToAggregate
-//	and no bucket further back is marked pushed (first emission after start, or only empty windows
-//	behind), the walk is not stopped: it wraps around the ring into the newest buckets and revisits
-//	buckets it has already collected in the same call (pushed flags are only set afterwards, in
-//	FlowCollection.Complete).  Observed consequences: (a) windows that overlap each other and contain
-//	the currently filling / future bucket are handed to the sink, so accepted flows are emitted twice
-//	and before the push delay (violation key emitted-windows-overlap; smallest witness in
-//	checks/c32/witness-emitted-windows-overlap.json: NewBucketRing(26, 5, now, WithPushAfter(1),
-//	WithBucketsToAggregate(4)), one AddFlow, EmitFlowCollections -> windows [..85,..105) and
-//	[..75,..95)); (b) for bucketsToAggregate == 1 (any ring) and for many other combinations the walk
-//	never terminates and allocates without bound (counted here as INCONCLUSIVE
-//	emit-flow-collections-walk-does-not-terminate, see the runaway guard below).  With the daemon's
-//	fixed 242 buckets this is reached by valid settings, e.g. EMIT_AFTER_SECONDS=15..29 with the
-//	default 15 s / 5 m windows (pushIndex 1, 240 % 20 == 0); the defaults (pushIndex 2) are not hit.
-//	Every violation seen on the unchanged tree at seeds 1..5 (quick) and in a 3000-case thorough
-//	sample has (n-1-pushAfter) % bucketsToAggregate == 0; all other configurations are silent.
+//	goldmane/pkg/storage/bucket_ring.go, EmitFlowCollections: the backward walk stopped only when the
+//	head index was strictly inside the next window (indexBetween is strict on both sides).  When the
+//	walk landed exactly on the head index, i.e. when (len(buckets) - 1 - pushAfter) is a multiple of
+//	bucketsToAggregate and no bucket further back was marked pushed, it wrapped around the ring into
+//	the newest buckets and revisited buckets it had already collected in the same call: overlapping,
+//	premature windows (violation key emitted-windows-overlap, smallest witness in
+//	checks/c32/witness-emitted-windows-overlap.json; follow-on key gm-emitted-total-differs-from-fed)
+//	or, e.g. for bucketsToAggregate == 1, a walk that never terminated (violation key
+//	emit-flow-collections-walk-does-not-terminate).  Reachable with the daemon's 242 buckets through
+//	valid settings such as EMIT_AFTER_SECONDS=15..29 with the default windows.
 //
 // The ring cases are single-threaded and fully replayable.  In the goldmane cases the interleaving of
 // the feeder/query/sink goroutines with the main loop is a real schedule and not replayable; the fed
@@ -95,17 +86,19 @@ import (
 // ---------------------------------------------------------------------------------------------
 // runaway guard
 //
-// On the unchanged tree BucketRing.EmitFlowCollections does not terminate for some (ring size,
-// pushAfter, bucketsToAggregate) combinations: its backward walk never reaches an already pushed
-// bucket nor the "head strictly inside the window" stop condition and keeps appending collections
-// (see the final report of this check).  A goroutine stuck in that loop cannot be interrupted from
-// outside and grows without bound, so the harness observes the walk through the one side channel the
-// public API offers, the logger: maybeBuildFlowCollection logs one debug record per examined window.
-// While an emitting call runs, debug logging is switched on (output discarded, null formatter) and a
-// hook counts those records; a walk that examines more than 4*n+50 windows (more than four laps of
-// the ring) is stopped by a panic out of the hook (ring cases, recovered by the caller) or by parking
-// the goroutine (goldmane cases).  Such a case is INCONCLUSIVE (it is a liveness failure, which the
-// property statement does not cover), never a violation.
+// EmitFlowCollections walks backwards through the ring one aggregation window at a time; for every
+// valid configuration it must finish within one lap, i.e. after examining at most as many windows as
+// the ring has buckets.  Before df56604 it did not for some (ring size, pushAfter, bucketsToAggregate)
+// combinations, and a goroutine stuck in that loop cannot be interrupted from outside and allocates
+// without bound.  The harness therefore observes the walk through the one side channel the public API
+// offers, the logger: maybeBuildFlowCollection logs one debug record per examined window.  While an
+// emitting call runs, debug logging is switched on (output discarded, null formatter) and a hook
+// counts those records per call (a record that does not continue the end-to-start chain of the
+// previous one begins a new call); a walk that examines more than n+2 windows in one call is cut off by a panic
+// out of the hook (ring cases, recovered by the caller) or by parking the goroutine (goldmane cases)
+// and reported as a VIOLATION (key emit-flow-collections-walk-does-not-terminate): such a walk has
+// necessarily revisited buckets, so it either re-emits a window or never ends.  The counter
+// emit_walk_steps_observed (with a floor) shows that the side channel is still alive.
 const walkMessage = "Checking if bucket range should be emitted"
 
 type runawayErr struct{}
@@ -118,6 +111,7 @@ type runawayHook struct {
 	seen    atomic.Int64
 	tripped atomic.Bool
 	notify  atomic.Pointer[func()]
+	prev    atomic.Int64 // startIndex of the previous record; a record whose endIndex differs starts a new walk
 }
 
 func (h *runawayHook) Levels() []logrus.Level { return []logrus.Level{logrus.DebugLevel} }
@@ -127,6 +121,17 @@ func (h *runawayHook) Fire(e *logrus.Entry) error {
 		return nil
 	}
 	h.seen.Add(1)
+	// Within one call the walk is chained: each window ends where the previous one started.  A record
+	// that does not continue the chain is the first window of a new call (the goldmane loop emits on
+	// every rollover and sink change), so the per-call count starts again.
+	si, ok1 := e.Data["startIndex"].(int)
+	ei, ok2 := e.Data["endIndex"].(int)
+	if ok1 && ok2 {
+		if int64(ei) != h.prev.Load() {
+			h.count.Store(0)
+		}
+		h.prev.Store(int64(si))
+	}
 	if h.count.Add(1) <= h.limit.Load() {
 		return nil
 	}
@@ -393,7 +398,8 @@ func (rc *ringCase) witness(extra map[string]any) map[string]any {
 // guarded runs an emitting call under the runaway guard; it reports true if the walk was cut off.
 func (rc *ringCase) guarded(fn func()) (runaway bool) {
 	guard.count.Store(0)
-	guard.limit.Store(int64(4*rc.n + 50))
+	guard.prev.Store(-1)
+	guard.limit.Store(int64(rc.n + 2))
 	guard.park.Store(false)
 	guard.tripped.Store(false)
 	guard.armed.Store(true)
@@ -415,8 +421,9 @@ func (rc *ringCase) guarded(fn func()) (runaway bool) {
 func (rc *ringCase) runaway(where string) {
 	rc.c.Count("emit_walk_runaway_cases", 1)
 	rc.c.Distinct("emit_walk_runaway_config", rc.n, rc.P, rc.A)
-	rc.c.Sample(map[string]any{"emit_walk_runaway": where, "n": rc.n, "pushAfter": rc.P, "bucketsToAggregate": rc.A, "ops_so_far": len(rc.ops)})
-	rc.c.Inconclusive("emit-flow-collections-walk-does-not-terminate")
+	rc.c.Violationf("emit-flow-collections-walk-does-not-terminate", rc.witness(map[string]any{"call": where, "windows_examined_limit": rc.n + 2}),
+		"%s on a ring of %d buckets (pushAfter %d, bucketsToAggregate %d) examined more than %d windows in one call: the walk does not stop within one lap of the ring",
+		where, rc.n, rc.P, rc.A, rc.n+2)
 }
 
 func (rc *ringCase) list(gte, lt int64, sortBy proto.SortBy) (map[int]cnt, bool) {
@@ -989,7 +996,8 @@ func runGoldmane(c *harness.Case) {
 	}
 	guard.notify.Store(&nf)
 	guard.count.Store(0)
-	guard.limit.Store(4*242 + 50)
+	guard.prev.Store(-1)
+	guard.limit.Store(242 + 2)
 	guard.park.Store(true)
 	guard.tripped.Store(false)
 	guard.armed.Store(true)
@@ -1004,8 +1012,8 @@ func runGoldmane(c *harness.Case) {
 		if guard.tripped.Load() {
 			c.Count("emit_walk_runaway_cases", 1)
 			c.Distinct("emit_walk_runaway_config", 242, P, A)
-			c.Sample(map[string]any{"emit_walk_runaway": "goldmane main loop", "n": 242, "pushIndex": P, "bucketsToCombine": A})
-			c.Inconclusive("emit-flow-collections-walk-does-not-terminate")
+			c.Violationf("emit-flow-collections-walk-does-not-terminate", map[string]any{"n": 242, "pushIndex": P, "bucketsToCombine": A},
+				"goldmane main loop (242 buckets, pushIndex %d, bucketsToCombine %d): EmitFlowCollections examined more than 244 windows in one call; the loop goroutine was parked", P, A)
 			return true
 		}
 		return false
@@ -1239,6 +1247,6 @@ func main() {
 		CaseTimeout: 120 * time.Second,
 		Floors: map[string]int64{"flows_accepted": 5000, "flows_rejected": 500, "rollovers": 3000, "collections_emitted": 500, "emitted_flows_compared": 500,
 			"range_queries_exact": 1000, "statistics_queries": 1000, "flowset_queries": 500, "bucket_readbacks": 50000,
-			"gm_conservation_checks": 20, "gm_emission_total_checks": 20, "flows_accepted_into_emitted_bucket": 20},
+			"gm_conservation_checks": 20, "gm_emission_total_checks": 20, "flows_accepted_into_emitted_bucket": 20, "emit_walk_steps_observed": 2000},
 	})
 }
